@@ -4,6 +4,7 @@ import (
 	"bufio"
 	"fmt"
 	"io"
+	"os"
 	"os/exec"
 	"strconv"
 	"strings"
@@ -63,7 +64,12 @@ func NewSolver(kind string, timeoutMs int) (*Solver, error) {
 	if err := cmd.Start(); err != nil {
 		return nil, err
 	}
-	s := &Solver{Name: kind, cmd: cmd, in: in, out: bufio.NewReaderSize(out, 1<<16), declared: map[string]uint8{}, timeout: timeoutMs}
+	var logw io.Writer
+	if f := os.Getenv("VP_SMTLOG"); f != "" {
+		lf, _ := os.OpenFile(fmt.Sprintf("%s.%d", f, cmd.Process.Pid), os.O_CREATE|os.O_WRONLY|os.O_TRUNC, 0o644)
+		logw = lf
+	}
+	s := &Solver{Log: logw, Name: kind, cmd: cmd, in: in, out: bufio.NewReaderSize(out, 1<<16), declared: map[string]uint8{}, timeout: timeoutMs}
 	pre := "(set-option :produce-models true)\n"
 	if kind != "cvc5" {
 		pre += fmt.Sprintf("(set-option :timeout %d)\n", timeoutMs)
